@@ -98,6 +98,11 @@ func seqOperands(l *loop) []ssa.Value {
 				}
 				out = append(out, ia.X)
 			}
+			// a string read byte by byte with the counter is a sequence too
+			if ix, ok := ins.(*ssa.Index); ok && isIdx(ix.Index) && isStringType(ix.X.Type()) && !seen[ix.X] {
+				seen[ix.X] = true
+				out = append(out, ix.X)
+			}
 		}
 	}
 	sort.Slice(out, func(i, j int) bool { return out[i].Name() < out[j].Name() })
@@ -132,6 +137,9 @@ func (r *aeRun) enterLoop(fr *frame, l *loop, pred *ssa.BasicBlock) (any, bool, 
 	for _, sv := range sum.seqVals {
 		v := r.force(fr, sv, 0)
 		ref, isRef := v.(avRef)
+		if st, isStr := v.(avTerm); isStr && isStringType(st.t) {
+			ref, isRef = avRef{key: st.key, side: st.side, t: st.t}, true
+		}
 		if !isRef {
 			r.oof("loop %s iterates a sequence without a model", id)
 		}
@@ -149,7 +157,13 @@ func (r *aeRun) enterLoop(fr *frame, l *loop, pred *ssa.BasicBlock) (any, bool, 
 		r.ctx.terms[zkey] = &termInfo{kind: akRel, base: []string{seqBase(keys[0])}, lenKey: "len(" + keys[0] + ")"}
 	}
 	// orientation: which individual is the loop's first (A) side? the side of the first sequence operand
-	first := r.force(fr, sum.seqVals[0], 0).(avRef)
+	var first avRef
+	switch fv := r.force(fr, sum.seqVals[0], 0).(type) {
+	case avRef:
+		first = fv
+	case avTerm:
+		first = avRef{key: fv.key, side: fv.side, t: fv.t}
+	}
 	c := r.cmpKey(zkey, first.side, 1-first.side)
 	r.zUsed = append(r.zUsed, zkey)
 	if c != 0 {
